@@ -160,14 +160,14 @@ def iter_stream(rng, tier):
             m = bytearray(e); m[rng.randrange(1, len(m))] = rng.choice([0x61, 0xf6, 0x19, 0xff, 0x38]); e = bytes(m)   # a non-u8 / break inside
         k = rng.choice([0, 1, 2, n - 1, n, n + 1, n + 2, 40]) if n else rng.choice([0, 1, 3])
         k = max(k, 0)
-        ad = rng.choice(["all", f"nth:{k}", f"nth:{k}", f"skip:{k}", f"skip:{k}", f"step:{max(k, 1)}", f"take:{k}"] +
+        ad = rng.choice(["all", f"nth:{k}", f"nth:{k}", f"skip:{k}", f"skip:{k}", f"step:{max(k, 1)}", f"take:{k}", f"fuse:{rng.choice([1, 2, 5])}"] +
                         (["last", "count"] if r >= 0.2 else []))
         exp = ""
         if ad == "all" and r >= 0.2 and kind != "map":
             exp = " #E=" + (",".join(str(v) for v in vals) or "-").replace(" ", "~") + f"~@{len(e)}"
         ops.append(f"aiter {kind} {ad} {gen.hexb(e + tail)}{exp}")
     st = Stream("iterator-adaptors", "hcore", ops, judge=judge_iter,
-                rule="aiter: Decoder::array_iter / array_iter_with / map_iter behind nth, skip, step_by, take, last, count vs plain next() calls "
+                rule="aiter: Decoder::array_iter / array_iter_with / map_iter behind nth, skip, step_by, take, fuse, last, count vs plain next() calls "
                      "(definite and indefinite containers, data behind them, truncations, foreign items inside), and vs the model's iterator "
                      "(Iter.lean: state + next; the adaptors spelled out through next as core defines them; Thm/Iter: next-until-None = the drained loops)",
                 nontrivial=lambda op, impl: " | " in impl)
